@@ -690,6 +690,10 @@ func (f *fixture) exploreRaw(c *core.C, st *stats, g grantCfg, reqs []request, d
 	return rec(&state{ctx: root, ref: newRef(g), sum: map[string]*big.Int{}}, 0)
 }
 
+// Run executes the grant exploration on behalf of another check (C49 covers grants with it); violations
+// are reported under the calling check's id.
+func Run(c *core.C) { run(c) }
+
 func run(c *core.C) {
 	f := newFixture(c)
 	if f == nil {
